@@ -49,12 +49,12 @@ structure TStream where
 
 /-- The `while let Some(..) = token_iter.next()` loop of `read_tokens`: returns the rest of the
     source, the buffer and the number of non-skip tokens read. -/
+def bumpRead (t : LTok) (r : Nat) : Nat := if t.effSkip then r else r + 1
+
 def readLoop : List LTok → TBuf → Nat → Nat → List LTok × TBuf × Nat
   | [], b, r, _ => ([], b, r)
   | t :: src, b, r, n =>
-    let r' := if t.effSkip then r else r + 1
-    let b' := b.add t
-    if r' ≥ n then (src, b', r') else readLoop src b' r' n
+    if bumpRead t r ≥ n then (src, b.add t, bumpRead t r) else readLoop src (b.add t) (bumpRead t r) n
 
 /-- Filler EOIs (`Token::eoi(TokenNumber::MAX)`, location `0..0`). -/
 def fillEoi : Nat → TBuf → TBuf
